@@ -1393,6 +1393,57 @@ func TestVerifEnum(t *testing.T) {
 		}
 	}
 
+	// ---- 9b. encoded messages stay what they are while further messages are encoded ------------
+	h.begin("outstanding", "every encoder: message A is encoded, then messages B and C of the same and of other kinds, and only then A's bytes are compared with a copy taken right after A was encoded (an encoder must not hand out memory it reuses for the next message)")
+	{
+		type encFn struct {
+			name string
+			f    func(i int) ([]byte, error)
+		}
+		strs := []string{"a", "bb", "offer-with-a-longer-text-0123456789", "x"}
+		encs := []encFn{
+			{"EncodeProxyPollRequestWithRelayPrefix", func(i int) ([]byte, error) {
+				return EncodeProxyPollRequestWithRelayPrefix("sid"+strs[i%4], "standalone", "unknown", i, strs[(i+1)%4])
+			}},
+			{"EncodeProxyPollRequest", func(i int) ([]byte, error) { return EncodeProxyPollRequest("sid"+strs[i%4], "webext", "restricted", i) }},
+			{"EncodePollResponseWithRelayURL", func(i int) ([]byte, error) {
+				return EncodePollResponseWithRelayURL(strs[i%4], true, "unknown", "wss://"+strs[(i+2)%4]+".example/", "")
+			}},
+			{"EncodePollResponse", func(i int) ([]byte, error) { return EncodePollResponse(strs[i%4], true, "restricted") }},
+			{"EncodeAnswerRequest", func(i int) ([]byte, error) { return EncodeAnswerRequest(strs[i%4], "sid"+strs[(i+3)%4]) }},
+			{"EncodeAnswerResponse", func(i int) ([]byte, error) { return EncodeAnswerResponse(i%2 == 0) }},
+			{"ClientPollRequest.EncodeClientPollRequest", func(i int) ([]byte, error) {
+				return (&ClientPollRequest{Offer: strs[i%4], NAT: "unknown", Fingerprint: refDefaultFingerprint}).EncodeClientPollRequest()
+			}},
+			{"ClientPollResponse.EncodePollResponse", func(i int) ([]byte, error) {
+				return (&ClientPollResponse{Answer: strs[i%4], Error: ""}).EncodePollResponse()
+			}},
+		}
+		for ai, a := range encs {
+			for bi, b := range encs {
+				for i := 0; i < 4; i++ {
+					key := fmt.Sprintf("out|%d|%d|%d", ai, bi, i)
+					if !h.mineKey(key) {
+						continue
+					}
+					h.r.Case(key, true)
+					first, err := a.f(i)
+					if err != nil {
+						continue
+					}
+					keep := append([]byte(nil), first...)
+					for j := 1; j <= 3; j++ {
+						b.f(i + j)
+						a.f(i + j)
+					}
+					if !bytes.Equal(first, keep) {
+						h.r.Fail("outstanding:encoded-bytes-changed", fmt.Sprintf("%s returned %s; after three more messages were encoded with %s and %s the same slice reads %s", a.name, showBytes(keep), b.name, a.name, showBytes(first)), map[string]interface{}{"first": a.name, "then": b.name, "i": i})
+					}
+				}
+			}
+		}
+	}
+
 	// ---- 10. truncations and mutations of valid documents ------------------------------------
 	h.begin("truncation", "every proper prefix and every proper suffix of the valid documents of each message (real encoder output and hand-written older versions)")
 	for kind := 0; kind < nKinds && !h.stop; kind++ {
